@@ -75,6 +75,11 @@ def _chunk(arg):
         out["cases"] += 1
         for st in styles_for(r, n_styles):
             src = gen_story.print_story(ast, st)
+            if r.random() < 0.25:
+                # an earlier compilation in this process that ended badly (inside an open Python block, an open @if): it must
+                # leave nothing behind
+                compile_outcome(r.choice([":: Draft\n@py:\nx = 1\n", ":: Draft\n<<py\nx = 1\n", ":: Draft\n@if x:\n  @py:\n  y = 2\n",
+                                          ":: Draft\n+ [a] -> @join\n    @py:\n"]))
             got = compile_outcome(src)
             out["variants"] += 1
             if got[0] != "ok":
@@ -90,7 +95,9 @@ def _chunk(arg):
 
 
 PY_LINES = ["x = 1", "y = x + 1", "if x:", "    y = 2", "s = \"\"\"a", "b\"\"\"", "t = (1,", "2)", "# a comment", "z = 4 // 2", "d = {'a': 1}", "",
-            "  ", "for i in range(2):", "        z = i", "pass", "w = 'it''s'", "q = [", "]", "u = x  # note"]
+            "  ", "for i in range(2):", "        z = i", "pass", "w = 'it''s'", "q = [", "]", "u = x  # note",
+            # body lines that begin like a block closer: a right shift continued on the next line, a doctest prompt in a docstring
+            "v = (256", ">> 4)", "def f():", "    \"\"\"", "    >>> f()", ">>> x", "    \"\"\"", "@endpy_not = 1", ">>= 1"]
 
 
 def py_body_family(rep, n):
